@@ -65,7 +65,7 @@ def run(params):
                         bad.append(f"{op}: bytes differ from model slice [{p},{p + m})")
                     elif ub is not None and m == n:
                         from sigpyproc.io.bits import unpack
-                        ref = unpack(np.frombuffer(model[p:p + m], dtype=np.uint8), bi.nbits, bitorder=bi.bitorder)
+                        ref = unpack(np.frombuffer(model[p:p + m], dtype=np.uint8).copy(), bi.nbits, bitorder=bi.bitorder)
                         if not np.array_equal(np.frombuffer(ub, dtype=np.uint8), ref):
                             bad.append(f"{op}: unpacked buffer differs from model")
                     p += m
@@ -80,7 +80,7 @@ def run(params):
                     if p + nb > T:
                         bad.append(f"{op}: counted read past the end returned {data.size} items instead of raising")
                     else:
-                        ref = np.frombuffer(model[p:p + nb], dtype=bi.dtype)
+                        ref = np.frombuffer(model[p:p + nb], dtype=bi.dtype).copy()
                         if bi.unpack:
                             from sigpyproc.io.bits import unpack
                             ref = unpack(ref, bi.nbits, bitorder=bi.bitorder)
